@@ -207,4 +207,89 @@ def rule_r5(ctx):
     return rr
 
 
-RULES = [("C15-R1", rule_r1), ("C15-R2", rule_r2), ("C15-R3", rule_r3), ("C15-R4", rule_r4), ("C15-R5", rule_r5)]
+# run-time API the generated code may rely on: what Python 3.8 does NOT have (library reference,
+# "New in version" / "Changed in version" notes of builtins, str/bytes/int methods, itertools, importlib)
+NEW_BUILTINS = {
+    "aiter": "3.10", "anext": "3.10", "EncodingWarning": "3.10", "BaseExceptionGroup": "3.11",
+    "ExceptionGroup": "3.11", "PythonFinalizationError": "3.13",
+}
+NEW_KEYWORDS = {
+    ("zip", "strict"): "3.10", ("int", "base"): None, ("sum", "start"): None, ("pow", "mod"): None,
+    ("print", "flush"): None, ("open", "encoding"): None, ("compile", "_feature_version"): None,
+    ("round", "ndigits"): None, ("bisect", "key"): "3.10", ("dataclass", "slots"): "3.10",
+    ("map", "strict"): "3.14", ("reversed", "strict"): None,
+}
+NEW_METHODS = {
+    "removeprefix": "3.9", "removesuffix": "3.9", "bit_count": "3.10", "is_integer": None,
+    "pairwise": "3.10", "batched": "3.12", "lcm": "3.9", "isqrt": None, "nextafter": "3.9", "ulp": "3.9",
+    "cache": "3.9", "topological_sort": "3.9", "packages_distributions": "3.10", "__class_getitem__": None,
+    "add_note": "3.11", "__notes__": "3.11", "exceptions": "3.11", "isascii": None, "readline": None,
+}
+
+
+def rule_r6(ctx):
+    """The generated text calls into the run-time library: every builtin, keyword argument and
+    method it uses must exist on Python 3.8 (the oldest runtime of the property)."""
+    from ..semwalk import iter_tnodes
+    from ..vals import Cst, PList, Rep
+    from .common import all_templates
+
+    rr = RuleResult("C15-R6", "run-time API used by the emitted code exists on Python 3.8 (builtins, keyword arguments, methods)")
+    rr.floor = 20
+    seen = set()
+    n_calls = 0
+
+    def const_str(v):
+        return v.value if isinstance(v, Cst) and isinstance(v.value, str) else None
+
+    for origin, kind, pr, tmpl in all_templates(ctx):
+        for t in iter_tnodes(tmpl):
+            if t.kind == "Name":
+                nm = const_str(t.fields.get("id"))
+                if nm in NEW_BUILTINS and (origin, nm) not in seen:
+                    seen.add((origin, nm))
+                    rr.instances += 1
+                    rr.fail(f"C15-R6|{nm}|builtin", f"{origin} ({t.site}): the generated code uses the builtin `{nm}`, new in Python {NEW_BUILTINS[nm]}: NameError on older runtimes", where=t.site, what=f"builtin|{nm}|{origin}")
+            elif t.kind == "Attribute":
+                nm = const_str(t.fields.get("attr"))
+                if nm in NEW_METHODS and NEW_METHODS[nm] and (origin, nm) not in seen:
+                    seen.add((origin, nm))
+                    rr.instances += 1
+                    rr.fail(f"C15-R6|{nm}|attribute", f"{origin} ({t.site}): the generated code uses `.{nm}`, new in Python {NEW_METHODS[nm]}: AttributeError on older runtimes", where=t.site, what=f"attr|{nm}|{origin}")
+            elif t.kind == "Call":
+                n_calls += 1
+                f = t.fields.get("func")
+                fname = const_str(f.fields.get("id")) if getattr(f, "kind", None) == "Name" else (const_str(f.fields.get("attr")) if getattr(f, "kind", None) == "Attribute" else None)
+                kws = t.fields.get("keywords")
+                items = []
+                if isinstance(kws, PList):
+                    for k in kws.items:
+                        items += k.items if isinstance(k, Rep) else [k]
+                for k in items:
+                    arg = const_str(k.fields.get("arg")) if getattr(k, "kind", None) == "keyword" else None
+                    if fname and arg:
+                        rr.instances += 1
+                        ver = NEW_KEYWORDS.get((fname, arg))
+                        what = f"kw|{fname}|{arg}|{origin}"
+                        if ver and (origin, fname, arg) not in seen:
+                            seen.add((origin, fname, arg))
+                            rr.fail(f"C15-R6|{fname}|{arg}|keyword", f"{origin} ({t.site}): the generated code calls `{fname}(..., {arg}=...)`; the keyword `{arg}` is new in Python {ver}: TypeError on older runtimes (every destructuring assignment fails on 3.8 and 3.9)", where=t.site, what=what)
+                        elif (fname, arg) in NEW_KEYWORDS:
+                            rr.ok(what)
+                        else:
+                            rr.note(f"keyword {fname}({arg}=) in {origin}: not in the table of post-3.8 keywords")
+                            rr.ok(what, nontrivial=False)
+    rr.instances += n_calls
+    rr.ok("calls", sample={"rule": "C15-R6", "calls_examined": n_calls, "verdict": "no builtin/keyword/method newer than 3.8"})
+    return rr
+
+
+def rule_c06r11(ctx):
+    """Hosts before 3.12 give comprehensions symbol tables of their own; how generate_nsp treats them
+    (shared rule C06-R11) decides whether such a host converts what a 3.12 host converts."""
+    from .c06 import rule_r11 as r
+
+    return r(ctx)
+
+
+RULES = [("C15-R1", rule_r1), ("C15-R2", rule_r2), ("C15-R3", rule_r3), ("C15-R4", rule_r4), ("C15-R5", rule_r5), ("C15-R6", rule_r6), ("C06-R11", rule_c06r11)]
